@@ -25,6 +25,7 @@ struct CmdSpec {
   bool msvc = false, restat = false, gen = false, copy = false, depall = false;
   // how this tool spells names in its depfile / showIncludes output (canonical name -> spelling), and
   // whether it names all of its outputs as depfile targets (dsp=<hex of a=./a;b=x/../b>, dall=1)
+  std::map<std::string, std::vector<std::string>> per_out;  // po=<hex of a:s,t;b:u>: output -> the reads its content depends on
   std::map<std::string, std::string> dspell;
   bool dall = false;
   std::string Spelled(const std::string& n) const { auto i = dspell.find(n); return i == dspell.end() ? n : i->second; }
